@@ -133,11 +133,11 @@ PROPS.update({
         exhaustive_over="651 x 128-bit Eisel-Lemire entries (definition and semantic bound), 28+20 integer powers, 11+23 float powers, 5^135 and its step (non-compact); 10+66 Bellerophon significands with exponents and 10 integers (compact); pow_fast_path(k) for every k the fast path can consume (0..=max(MAX_EXPONENT_FAST_PATH, -MIN_EXPONENT_FAST_PATH), read from the crate) in all 8 configurations (table, std powf, bundled libm); bigint::pow(1,n) n<=200; parse_mantissa chunks of 1..19 digits",
         assumptions=["the definitions are those of etc/lemire_table.py / etc/bellerophon_table.py as restated in the property"]),
     "C17": dict(
-        sub="c17", cfgs=["D"],
+        sub="c17", cfgs=["D", "C", "A", "N", "NC"],
         rule="for every bit pattern: to_bits(from_bits) lossless, is_denormal == (exponent field == 0), mantissa()/exponent() equal the canonical IEEE decomposition, slow::b / bh follow from it, extended_to_float packs (biased exponent, fraction) into exactly those fields. Complete for f32.",
         exhaustive_over={"quick": "ALL 2^32 f32 bit patterns; f64: 2048 exponent fields x 2 signs x 156 fraction patterns + complete low-20-bit sweeps of exponent fields 0, 1, 2046, 2047 both signs",
                          "thorough": "plus 4096 seed-rotated fraction patterns and complete sweeps of the low 16 and the high 16 fraction bits in every f64 exponent field, both signs"},
-        assumptions=["the helpers are configuration independent (defined in num.rs without cfg)"]),
+        assumptions=["run in five configurations, so a cfg-gated arm in a helper is seen; NA / CA / NCA are assumed to behave as their alloc-free counterparts for these helpers"]),
     "C18": dict(
         sub="c18", cfgs=["D", "C"],
         rule="round::<F> with the nearest-even closure (as Bellerophon uses it), the nearest-even-with-sticky closure (big-integer path) and round_down is executed for every biased exponent of the callers' range on significands built from kept-bits x dropped-bits patterns; the packed result is compared with an exact u128 reference rounding. Mask helpers for every width (complete).",
